@@ -367,6 +367,50 @@ def _virtual_clock_run(text, expire_after, scorer_mode="nb", timeout=1000.0, cou
     return {"out": out, "exc": exc, "maxgap": max(gaps) if gaps else 0, "nseq": nseq[0], "reads": len(reads)}
 
 
+def h_timer(rp):
+    """drive the real deadline closure with a virtual clock: every check reads the clock exactly once, raises
+    exactly when the deadline has passed, also on the 2nd, 3rd, ... 300th check"""
+    import importlib
+    T = importlib.import_module("ctparse.timers")
+    out = {"func": rp["func"], "clause": rp["clause"]}
+    now, reads = [0.0], [0]
+
+    def fake():
+        reads[0] += 1
+        return now[0]
+    orig = T.perf_counter
+    T.perf_counter = fake
+    bad = None
+    try:
+        for expire_at in (None, 1, 2, 3, 15, 16, 17, 100, 255):
+            now[0], reads[0] = 0.0, 0
+            clo = T.timeout(10.0)
+            for k in range(1, 301):
+                if expire_at is not None and k >= expire_at:
+                    now[0] = 11.0
+                before = reads[0]
+                try:
+                    clo()
+                    raised = False
+                except T.CTParseTimeoutError:
+                    raised = True
+                should = expire_at is not None and k >= expire_at
+                if reads[0] - before != 1 or raised != should:
+                    bad = {"timeout": 10.0, "check_number": k, "deadline_passes_before_check": expire_at,
+                           "clock_reads_in_this_check": reads[0] - before, "raised": raised, "should_raise": should}
+                    break
+                if raised:
+                    break
+            if bad:
+                break
+    finally:
+        T.perf_counter = orig
+    out["confirmed"] = bad is not None
+    if bad:
+        out["failing_input"] = bad
+    return out
+
+
 def h_deadline(rp):
     out = {"func": rp["func"], "clause": rp["clause"]}
     a = rp.get("args")
@@ -700,7 +744,7 @@ def h_regexmatch(rp):
     return out
 
 
-HANDLERS = [("types.RegexMatch.__init__", h_regexmatch), ("loader.load_default_scorer", h_loader), ("nb_scorer.", h_nb), ("ctparse._regex_stack.get_m_dist", h_gap), ("partial_parse.PartialParse.", h_partial_parse), ("nb_estimator.", h_nb), ("ctparse._match_rule", h_match_rule), ("ctparse._ctparse.emission", h_emission), ("ctparse._ctparse", h_deadline), ("ctparse._regex_stack", h_deadline), ("ctparse._get_labels", h_labels), ("ctparse.ctparse[", h_ctparse), ("regex[", h_reglan),
+HANDLERS = [("timers.timeout._tt", h_timer), ("types.RegexMatch.__init__", h_regexmatch), ("loader.load_default_scorer", h_loader), ("nb_scorer.", h_nb), ("ctparse._regex_stack.get_m_dist", h_gap), ("partial_parse.PartialParse.", h_partial_parse), ("nb_estimator.", h_nb), ("ctparse._match_rule", h_match_rule), ("ctparse._ctparse.emission", h_emission), ("ctparse._ctparse", h_deadline), ("ctparse._regex_stack", h_deadline), ("ctparse._get_labels", h_labels), ("ctparse.ctparse[", h_ctparse), ("regex[", h_reglan),
             ("types.Artifact.__eq__", h_eq), ("corpus.parse_nb_string.nb_str", h_roundtrip),
             ("postprocess_latent.apply_postprocessing_rules", h_postprocess),
             ("types.Time.", h_accessor), ("types.Interval.", h_accessor),
